@@ -2,6 +2,7 @@
 
 from __future__ import annotations
 
+import os
 import sys
 
 TOOL = 3
@@ -47,3 +48,17 @@ def run_limited(fn, limit: int):
 
 def last_steps() -> int:
     return _state["count"]
+
+
+def die_with_parent() -> None:
+    """Linux: have the kernel SIGKILL this process when its parent dies, so that no worker outlives a killed
+    shard / fresh child (an orphan would keep a CPU busy and hold the check's stdout pipe open)."""
+    try:
+        import ctypes
+        import signal
+
+        ctypes.CDLL(None, use_errno=True).prctl(1, int(signal.SIGKILL), 0, 0, 0)  # PR_SET_PDEATHSIG
+        if os.getppid() == 1:
+            os._exit(0)
+    except Exception:  # noqa: BLE001
+        pass
